@@ -8,6 +8,18 @@ CHECKS = {
    technique="coverage-guided fuzzing (libFuzzer, structure-aware decoding, ASan) + exhaustive boundary-product enumeration, differential oracle = GMP",
    text="Every big-integer entry point of bigint.c/foam_i.c is compared with GMP on the full product of values within +-2 of 2^k (k<=200 quick, 520 thorough; both signs; all pairs; every binary op) and on coverage-guided structured operands up to 4000 bits. Exploration: absence of a defect outside the explored operands is not shown.",
    note="Trusted: GMP, the harness decoding, malloc-backed storage (STO_USE_MALLOC). bintMod's sign convention is taken from fiBIntRem.", design="4 C11"),
+ "C01": dict(level="exploration", engine="hypothesis-subprocess",
+   technique="property-based testing (Hypothesis-generated typed programs) against an independent reference evaluator, on two execution routes",
+   text="Programs drawn from a typed abstract grammar (integers of both widths, booleans, strings, lists, arrays, records, unions, closures, generators, loops with break/iterate, early exit, exceptions, overloading, macros, parametrised domains with category defaults) are run by the interpreter and as C executables and compared line by line with a Python reference evaluator of the same tree.",
+   note="Trusted: the reference evaluator (vt/gen/prog.py) for the stated sub-language; constructs that hit known compiler defects are excluded by construction and listed in known_findings.json.", design="4 C01"),
+ "C02": dict(level="exploration", engine="hypothesis-subprocess",
+   technique="differential property-based testing: generated programs x generated optimisation configurations, oracle = same program at -Q0 on the same route",
+   text="Each generated program runs under -Q0 and under sampled configurations (all levels, each switch alone, each switch removed from -Q9, random subsets, random inline limits) on the interpreter and, for a sample and all cc* switches, as C executable; output lines and exit class must be equal.",
+   note="Purely differential; excluded: -Q9 with recursion (K8) and -Qkillp (K20), both listed known findings.", design="4 C02"),
+ "C03": dict(level="exploration", engine="hypothesis-subprocess",
+   technique="differential property-based testing: interpreter (source and saved .ao) versus gcc-linked C executable over generated programs x levels",
+   text="Generated programs, including ones ending by uncaught exception, failed assertion, never or error, run at -Q{0,1,2,3,5,9} under -Ginterp (from .as and from the saved .ao) and as executable; normalised stdout, exit class and the Unhandled Exception text must agree.",
+   note="Only tool-emitted text is normalised away.", design="4 C03"),
  "C10": dict(level="exploration", engine="rapidcheck-stateful",
    technique="stateful model-based property testing (rapidcheck histories, fork-isolated, reference model of live blocks) + exhaustive enumeration of short histories",
    text="Random alloc/free/resize/recode/link/root/gc histories (<=200 steps quick, up to 1e5 thorough) and all histories of length <=5 (thorough <=6) over a 10-letter alphabet run on the real allocator in both build flavours; after every step alignment, size, disjointness, byte patterns, code, survival of reachable blocks and stoAudit are checked.",
@@ -62,7 +74,7 @@ def main():
             {"name": "libfuzzer+product", "path": "harness/bigint_fuzz.cc", "serves_properties": ["C11"], "kind_free_text": "libFuzzer target with GMP oracle; deterministic boundary product driver"},
             {"name": "rapidcheck-stateful", "path": "harness/containers_rc.cc", "serves_properties": ["C10", "C20"], "kind_free_text": "rapidcheck-generated operation histories against reference models"},
             {"name": "exhaustive-loop+hypothesis", "path": "harness/xfloat_check.cc", "serves_properties": ["C19"], "kind_free_text": "exhaustive bit-pattern loops; Hypothesis-generated literals through the compiler"},
-            {"name": "hypothesis-subprocess", "path": "vt/", "serves_properties": [], "kind_free_text": "Hypothesis-generated programs/inputs driving the compiler under test as a subprocess"},
+            {"name": "hypothesis-subprocess", "path": "vt/", "serves_properties": ["C01", "C02", "C03"], "kind_free_text": "Hypothesis-generated programs/inputs driving the compiler under test as a subprocess"},
         ],
         "checks": checks,
         "not_applicable": na,
